@@ -22,7 +22,7 @@ func init() {
 	Register(&Rule{
 		ID:    "R-SCRATCH",
 		Doc:   "in every container loop of the json/thrift decoders, each loop-invariant decode destination (address-taken local, reflect.Value created before the loop) passed to a decode function is reset inside the loop (a store to the local / reflect.Value.Set with a loop-invariant zero)",
-		Props: []string{"C02", "C04", "C01", "C13", "C14"},
+		Props: []string{"C02", "C04", "C01", "C13", "C14", "C10"},
 		Min:   map[string]int{"C02": 8, "C04": 2, "C01": 1},
 		Run:   runScratch,
 	})
@@ -113,7 +113,7 @@ func runScratch(c *core.Ctx) []core.Obligation {
 	}
 	sort.Slice(fns, func(i, j int) bool { return shortName(fns[i]) < shortName(fns[j]) })
 	for _, fn := range fns {
-		props := []string{"C02", "C14"} // what a map member inherits from the previous one depends on the member order, which SortMapKeys chooses
+		props := []string{"C02", "C14", "C10"} // a value already stored is overwritten through the scratch; what a map member inherits from the previous one depends on the member order, which SortMapKeys chooses
 		if strings.HasPrefix(shortName(fn), "thrift.") {
 			props = []string{"C04", "C13"}
 		}
